@@ -12,7 +12,7 @@ import (
 
 func init() {
 	register("C03",
-		"every construct that may panic at run time in module code reachable from Resolve and from the registered builtins (explicit panics, reflect operations documented to panic, method calls on possibly-nil interface values, non-constant slice / index expressions, unchecked type assertions, interface comparisons, integer division, regexp.MustCompile, strings.Repeat) is enumerated and must be covered by a deferred recover-to-error at the evaluation entry point; nothing reachable can end the process or swallow a panic and continue; the entry and the node dispatcher return (nil, error) or (value, nil); the dispatcher has an arm per node type and error defaults (also for unknown prefix operators and literal kinds); evaluation recursion descends to children and every loop is bounded by a length.",
+		"every construct that may panic at run time in module code reachable from Resolve and from the registered builtins (explicit panics, reflect operations documented to panic, method calls on possibly-nil interface values, non-constant slice / index expressions, unchecked type assertions, interface comparisons, integer division, regexp.MustCompile, strings.Repeat) is enumerated and must be covered by a deferred recover-to-error at the evaluation entry point; nothing reachable can end the process or swallow a panic and continue; the entry and the node dispatcher return (nil, error) or (value, nil); the dispatcher has an arm per node type and error defaults (also for unknown prefix operators and literal kinds); evaluation recursion descends to children and every loop is bounded by a length. Reading a missing struct field cannot end in (value, no error); a lock taken in evaluator-reachable code is released by a deferred unlock or held over nothing that may panic.",
 		"termination and panic-freedom of host functions supplied by the caller, fatal runtime errors that bypass recover (stack or memory exhaustion), nil-pointer dereferences through method values (not enumerated individually; covered by the recover), and the wording of errors.",
 		runC03)
 }
